@@ -6,6 +6,7 @@
 //  part=ctor : RFKickMap (linear, sinusoidal), DriftMap, WakePotentialMap built through their own constructors
 //  part=fp   : FokkerPlanckMap, all FP types x stencils x zero-bin positions x damping decrements; Identity
 #include "inov.hpp"
+#include <cstdlib>
 using namespace inov;
 
 static mcx::Report R;
@@ -70,6 +71,16 @@ static void check_kick(const std::string& kase, KickMap& km, psptr in, psptr out
         }
         km.apply();
         double s = sum(dout, (size_t)n * n * nb);
+        if (sign && !std::getenv("C01_NO_ODDNESS")) {   // signed data is moved like non-negative data: the negated blob gives the negated image (time-independent maps only)
+            if (dynamic_cast<DynamicRFKickMap*>(&km) == nullptr) {
+                std::vector<float> img(dout, dout + (size_t)n * n * nb);
+                for (size_t i = 0; i < img.size(); i++) din[i] = -din[i];
+                km.apply();
+                bool odd = true; for (size_t i = 0; i < img.size(); i++) if (dout[i] != -img[i] && !(dout[i] == 0 && img[i] == 0)) { odd = false; break; }
+                if (!odd) R.violate(keybase + "/signed-data-treated-differently", kase, "the negated blob does not give the negated image");
+                for (size_t i = 0; i < img.size(); i++) { din[i] = -din[i]; dout[i] = img[i]; }
+            }
+        }
         R.eval(kase + (sign ? " blob=signed" : " blob=nonneg"), mcx::fnv(dout, sizeof(float) * n * n * nb, mcx::fnvs(kase)), mag == 0);
         if (std::fabs(s - tot) > 8 * EPS * (mag + 1)) {
             char d[200]; snprintf(d, 200, "sum before=%.9g after=%.9g (sum|data|=%.6g)", tot, s, mag);
@@ -185,6 +196,27 @@ static void part_fp(const std::vector<unsigned>& ns, const std::vector<int>& shi
                 char dd[240]; snprintf(dd, 240, "bunch=%u column=%u zero_bin=%.3f e1=%.4g column_sum-1=%.4g tol=%.3g (%s seam band)", b, c, zb, e1, s - 1, tol, band ? "inside" : "outside");
                 R.violate(key + (band ? "/band" : "/column-sum"), kase, dd);
             }
+        }
+        // column sums decide conservation for ALL data only if the step is linear in the data: signed data must be treated like non-negative data.
+        // (a) the negated impulses give exactly the negated result; (b) dense signed data in which whole columns hold only negative cells:
+        //     M(s) must equal M(s+) - M(s-) of its positive and negative parts (up to rounding)
+        {
+            std::vector<float> pos(dout, dout + (size_t)n * n * nb);
+            for (size_t i = 0; i < (size_t)n * n * nb; i++) din[i] = -din[i];
+            m.apply();
+            bool odd = true; for (size_t i = 0; i < pos.size(); i++) if (dout[i] != -pos[i] && !(dout[i] == 0 && pos[i] == 0)) { odd = false; break; }
+            if (!odd) R.violate(key + "/signed-data-treated-differently", kase, "the negated impulses do not give the negated result");
+            std::vector<float> sp((size_t)n * n * nb, 0.f), sm(sp), rp, rm;
+            for (unsigned b = 0; b < nb; b++) for (unsigned x = 2; x + 2 < n; x++) for (unsigned y = 2; y + 2 < n; y++) {
+                float v = std::sin(0.9f * x + 1.3f * y + b) ; if (x % 3 == 1) v = -std::fabs(v) - 0.1f; if (x % 3 == 2) v = std::fabs(v);   // every third column: negative cells only
+                (v >= 0 ? sp : sm)[((size_t)b * n + x) * n + y] = std::fabs(v);
+            }
+            std::copy(sp.begin(), sp.end(), din); m.apply(); rp.assign(dout, dout + sp.size());
+            std::copy(sm.begin(), sm.end(), din); m.apply(); rm.assign(dout, dout + sp.size());
+            for (size_t i = 0; i < sp.size(); i++) din[i] = sp[i] - sm[i];
+            m.apply();
+            double worst = 0; for (size_t i = 0; i < sp.size(); i++) worst = std::max(worst, (double)std::fabs(dout[i] - (rp[i] - rm[i])));
+            if (!(worst <= 64 * EPS * (1 + 4 * e1 / (d * d) + e1 * n))) { char dd[200]; snprintf(dd, 200, "signed data: M(s) differs from M(s+) - M(s-) by %.4g", worst); R.violate(key + "/signed-data-treated-differently", kase, dd); }
         }
     }
     // Identity: bit-exact copy
